@@ -60,7 +60,8 @@ def run_k(ctx, kres):
     txt, n = gen.c12_smallscope(ctx.seed, 2 if ctx.quick else 3)
     v = k_suite(ctx, kres, "K12-smallscope(exhaustive,%d sequences)" % n, [Trace("smallscope", txt)], in_projection, sig_of=sig_of, direct=direct, shrink_budget=80)
     nh = 40 if ctx.quick else 800
-    hs = [Trace("ops%d" % i, gen.ops_history(ctx.seed * 7919 + i, 60 if ctx.quick else 120, rsa=(i % 3 != 2))) for i in range(nh)]
+    from .. import ksuites
+    hs = ksuites.corpus_traces("C12") + [Trace("ops%d" % i, gen.ops_history(ctx.seed * 7919 + i, 60 if ctx.quick else 120, rsa=(i % 3 != 2))) for i in range(nh)]
     v += k_suite(ctx, kres, "K12-histories", hs, in_projection, sig_of=sig_of, direct=direct)
     return v
 
